@@ -1,7 +1,92 @@
-import Driver.Util
-open Lean
+import Driver.ProgJson
+import Heph.Model.TransKotlin
+/-! ops of the Kotlin translator model:
+ * `trans.kotlin` `{program: <export>, package: str|null, history?: [<export>…]}` → text of `program`
+   printed by a translator object that has already translated the programs of `history`
+ * `trans.kotlin.doc` (same request) → `[[tag, name|null, text]…]`, the tagged pieces
+ * `trans.kotlin.inventory` `{program}` → `[[tag, name]…]`, the declaration inventory computed from the IR
+ * `trans.kotlin.visit` `{program, ident?, is_unit?, is_lambda?, _cast_integers?}` → texts of the top-level
+   declarations visited in turn from that state, and the state afterwards
+ * `trans.kotlin.state` (same request as `trans.kotlin`) → the state after translating history and program -/
+open Lean Heph Heph.TransKotlin
 namespace Driver.TransKotlin
 
-def handle : Handler := fun _ _ => none
+def tagJson : Tag → List Json
+  | .other => ["other", Json.null]
+  | .classD n => ["class", n]
+  | .tparamD n => ["tparam", n]
+  | .fieldD n => ["field", n]
+  | .funcD n => ["func", n]
+  | .funcName n => ["funcname", n]
+  | .paramD n => ["param", n]
+  | .varD n => ["var", n]
+  | .superT => ["super", Json.null]
+  | .varAnnot n => ["varannot", n]
+  | .retAnnot n => ["retannot", n]
+  | .lamRet => ["lamret", Json.null]
+  | .targs f => ["targs", f]
+  | .newT e => ["new", Json.bool e]
+  | .lit => ["lit", Json.null]
+  | .op => ["op", Json.null]
+  | .name => ["name", Json.null]
+  | .ty => ["ty", Json.null]
+
+def pieceJson (p : Piece) : Json := Json.arr ((tagJson p.1 ++ [Json.str p.2]).toArray)
+
+def getPackage (j : Json) : Option String :=
+  match j.getObjValD "package" with | .str s => some s | _ => none
+
+def getHistory (j : Json) : Except String (List Program) := do
+  match j.getObjVal? "history" with
+  | .error _ => pure []
+  | .ok h => (← h.getArr?).toList.mapM fun pj => do pure (← parseProgramObj pj).2
+
+def getProgram (j : Json) : Except String Program := do
+  pure (← parseProgramObj (← j.getObjVal? "program")).2
+
+def frameStr : Frame → String
+  | .none => "none" | .block => "block" | .fn _ => "fn" | .varD _ => "var" | .other => "other"
+
+def stJson (ob : Obj) : Json :=
+  let st := ob.st
+  Json.mkObj [
+  ("ident", Json.num (JsonNumber.fromNat st.ident)), ("is_unit", st.isUnit), ("is_lambda", st.isLambda),
+  ("_cast_integers", st.cast), ("_nodes_stack", Json.arr (st.stack.reverse.toArray.map fun f => Json.str (frameStr f))),
+  ("package", match ob.package with | some s => Json.str s | none => Json.null),
+  ("context_classes", Json.arr (st.context.toArray.map fun c => Json.str (className c)))]
+
+def handle : Handler := fun op j =>
+  match op with
+  | "trans.kotlin" => some (do
+      let p ← getProgram j
+      let st := after (initObj (getPackage j)) (← getHistory j)
+      pure (res (Json.str (text st p))))
+  | "trans.kotlin.doc" => some (do
+      let p ← getProgram j
+      let st := after (initObj (getPackage j)) (← getHistory j)
+      pure (res (Json.arr ((programDoc st p).2.toArray.map pieceJson))))
+  | "trans.kotlin.state" => some (do
+      let p ← getProgram j
+      let st := after (initObj (getPackage j)) (← getHistory j)
+      pure (res (stJson (visitProgram st p))))
+  | "trans.kotlin.visit" => some (do
+      -- visit the top-level declarations one by one from a hand-set state (no `visit_program`)
+      let p ← getProgram j
+      let st0 : St := { ident := (j.getObjValAs? Nat "ident").toOption.getD 0,
+                        isUnit := (j.getObjValAs? Bool "is_unit").toOption.getD false,
+                        isLambda := (j.getObjValAs? Bool "is_lambda").toOption.getD false,
+                        cast := (j.getObjValAs? Bool "_cast_integers").toOption.getD false,
+                        context := programClasses p }
+      let r := visitL st0 p.decls
+      pure (res (Json.mkObj [("texts", Json.arr (r.2.toArray.map fun d => Json.str (flatten d))),
+                             ("state", stJson { st := r.1 })])))
+  | "trans.kotlin.inventory" => some (do
+      let p ← getProgram j
+      pure (res (Json.arr ((inventory p).toArray.map fun t => Json.arr (tagJson t).toArray))))
+  | "trans.kotlin.issam" => some (do
+      let p ← getProgram j
+      let cs := programClasses p
+      pure (res (Json.arr (cs.toArray.map fun c => Json.arr #[Json.str (className c), Json.bool (isSamDecl cs c)]))))
+  | _ => none
 
 end Driver.TransKotlin
